@@ -322,8 +322,16 @@ def _run_assemble(c, col):
                     AFP={names[i]: afp[i] for i in range(len(names))}, masked=bool(out.infodata[INFO.REFMASKED]))
 
     def body(ctx):
-        thr = E.SymReal(E.fresh_real(ctx, "thr", 0, 1, lo_strict=False, hi_strict=False))
         posts = {}
+        if _REPLAY is not None:
+            # replay on the real modules: the solver's point as plain floats
+            thr = float(_REPLAY.get("thr", 0.5))
+            for s, gs in zip(allsamples, scen):
+                ps = [float(_REPLAY.get("p_%s_%d" % (s, i), 1.0 / len(gs))) for i in range(len(gs) - 1)]
+                ps.append(1.0 - sum(ps))
+                posts[s] = cl.PosteriorGenotypeDistribution(rnp.array(gs, dtype=rnp.int8), rnp.array(ps))
+            return run(["s0"], posts, thr), run(allsamples, posts, thr), run(list(reversed(allsamples)), posts, thr)
+        thr = E.SymReal(E.fresh_real(ctx, "thr", 0, 1, lo_strict=False, hi_strict=False))
         for s, gs in zip(allsamples, scen):
             ps = [z3.Real("p_%s_%d" % (s, i)) for i in range(len(gs) - 1)]
             ps.append(1 - (z3.Sum(ps) if len(ps) > 1 else ps[0]) if ps else z3.RealVal(1))
@@ -494,6 +502,9 @@ def _replay_exact(c, m):
     return False, "sample A's column is identical in the three real runs"
 
 
+_REPLAY = None  # the solver's model while a driver is re-run on the real modules
+
+
 def _replay_driver(c, m, v):
     """call / assemble / pools: run the same driver with the real modules in place of the shadow ones and the model's values"""
     import importlib
@@ -521,11 +532,14 @@ def _replay_driver(c, m, v):
 
     col = _OneShot()
     col.check = lambda ctx, claim, site, kind, **k: (col.fails.append((kind, k.get("desc"), k.get("witness"))) if not z3.is_true(z3.simplify(claim)) else None)
+    global _REPLAY
+    _REPLAY = dict(m)
     try:
         globals()["_run_" + c["group"]](c, col)
     except Exception as e:
         return False, "replay driver failed: %r" % (e,)
     finally:
+        _REPLAY = None
         E.load, E.fresh_int, E.fresh_real = saved
         for mod, a_, val in saved_attrs:
             setattr(mod, a_, val)
